@@ -32,6 +32,20 @@ func (r *Run) genBasis(filter func(*basis.Schema) bool, opts []basis.Options) (*
 	if opts == nil {
 		opts = basis.OptionSets(r.Tier, r.Seed)
 	}
+	if r.Tier == "thorough" {
+		// thorough: the quick schemas under all 32 option sets, and the additional (deeper) schemas under the
+		// pairwise-covering option sets — not the full product, which takes hours without adding shapes
+		quickSchemas := map[string]bool{}
+		for _, s := range basis.Enumerate("quick", r.Seed) {
+			quickSchemas[s.Name] = true
+		}
+		quickOpts := map[string]bool{}
+		for _, o := range basis.OptionSets("quick", r.Seed) {
+			quickOpts[o.Suffix()] = true
+		}
+		basis.Pair = func(s *basis.Schema, o basis.Options) bool { return quickSchemas[s.Name] || quickOpts[o.Suffix()] }
+		defer func() { basis.Pair = nil }()
+	}
 	jobs, err := basis.Generate(dir, r.Repo, schemas, opts)
 	if err != nil {
 		return nil, err
@@ -67,6 +81,8 @@ func (r *Run) genBasis(filter func(*basis.Schema) bool, opts []basis.Options) (*
 	}
 	for _, j := range ok {
 		g := basis.NewSpecGen(e, j)
+		g.Dec = r.Dec || getenv("GEN_DEC", "") != ""
+		g.Encp = getenv("GEN_ENCP", "") != ""
 		if err := g.Generate(); err != nil {
 			return nil, fmt.Errorf("%s: %v", j.Name, err)
 		}
